@@ -470,6 +470,31 @@ inline void HMHarness::check(CheckCtx& c) {
   // ---- C08: linearizability against std::map (the erase(iterator) notes are instantaneous events)
   MapModel mm;
   mm.is_map = is_map;
+  // An element of a map is identified by (key, value). operator[] inserts a default constructed value, so two
+  // insertions of one key through operator[] are indistinguishable. erase(iterator) of such an element may
+  // therefore refer to an incarnation that has already been erased by somebody else (a no-op) or to the live one:
+  // the record is treated like a pending operation (takes effect or not). Only for elements that really are
+  // ambiguous in this history.
+  std::vector<OpRec> relaxed_copy;
+  if (is_map) {
+    std::map<std::pair<int64_t, int64_t>, int> ins;
+    for (int i : ops) {
+      const OpRec& o = h.ops[i];
+      bool inserted = o.status == 1 && (o.kind == OP_EMPLACE || o.kind == OP_EMPLACE_OR_GET || o.kind == OP_GET_OR_EMPLACE ||
+                                        o.kind == OP_GET_OR_EMPLACE_LAZY || o.kind == OP_INDEX);
+      if (o.kind == OP_INDEX && o.r0 != 0) inserted = false; // found an existing non-default value
+      if (inserted) ins[{o.a, o.kind == OP_INDEX ? 0 : o.b}]++;
+    }
+    bool any = false;
+    for (int i : ops)
+      if (h.ops[i].kind == OP_ERASE_POS && ins[{h.ops[i].a, h.ops[i].b}] >= 2) any = true;
+    if (any) {
+      relaxed_copy.assign(h.ops, h.ops + h.n);
+      for (int i : ops)
+        if (relaxed_copy[i].kind == OP_ERASE_POS && ins[{relaxed_copy[i].a, relaxed_copy[i].b}] >= 2) relaxed_copy[i].pending = true;
+      c.hist.ops = relaxed_copy.data();
+    }
+  }
   if (h.weak) {
     // Weak runs (C03): different keys live in different atomic objects and C03 does not promise one total order
     // over operations on different keys (two threads that each insert a key and then miss the other's key is
